@@ -13,7 +13,8 @@ PROPS = {
     'C02': {'units': ['opt', 'run19'], 'kani': K_ANALYSIS + [{'crate': 'p3-circuit', 'harness': 'c02_allocator_monotone'}], 'exclude': r'H_dup_out_unmentioned'},
     'C03': {'units': ['opt'], 'kani': K_ANALYSIS},
     'C19': {'units': ['run19'], 'kani': K_CONTEXT},
-    'C20': {'units': ['gad'], 'kani': []},
+    'C20': {'units': ['gad', 'fri'], 'kani': [], 'only': {'fri': r'evaluate_polynomial|circuit_exp_by_constant|lemma_'}},
+    'C07': {'units': ['fri', 'shape'], 'kani': [], 'only': {'shape': r'verify_fri_circuit'}, 'exclude': r'possible (bit shift|arithmetic)'},
     'C05': {'units': ['chal'], 'kani': [], 'exclude': r'canonical_width'},
     'C12': {'units': ['bits', 'chal'], 'kani': [], 'only': {'chal': r'canonical_width'}},
     'C15': {'units': ['shape'], 'kani': []},
@@ -122,8 +123,18 @@ META['C16'] = {
             'binding (C04, cryptographic); serde round-trip (derive macros) is outside any contract here. BatchStarkProof::validate is a callee contract (conjunction of the validators).',
 }
 
+META['C07'] = {
+    'technique': 'Verus contracts on extracted real FRI gadget functions + the shape-validation prefix of verify_fri_circuit',
+    'text': 'Deductive proof over an abstract field of the arithmetic building blocks of the in-circuit FRI verifier: one_hot_from_two/three_bits give the indicator of the little-endian index for '
+            'boolean bits, arity2_fold_at_point is the native arity-2 fold e0 + (beta - x0)(e1 - e0)(-1/2)/x0, evaluate_polynomial is Horner evaluation of the final polynomial for every length, '
+            'circuit_exp_by_constant is x^n for every n > 0 (square-and-multiply invariant with bit-vector lemmas); and the validation prefix of verify_fri_circuit returns Ok only with every length '
+            'fact the fold/query wiring indexes with.',
+    'note': 'GADGET KERNEL ONLY. Not under contract: one_hot_from_four_bits / one_hot_from_bits (generic arity), reconstruct_evals, fold_one_phase / fold_chain_circuit wiring, open_input height grouping, '
+            'proof-of-work, Merkle openings (C08), and the iff with the native verifier. Builder arithmetic contracts are assumed; -1/2 and bit_length are abstracted constants/stubs.',
+}
+
 NOT_APPLICABLE = {
     'C01': 'whole-verifier equivalence with the external native verifier (p3-uni-stark / p3-batch-stark): needs a relational spec of ~1.5 kLoC of dependency code across four generic traits; no per-function contract within reach expresses it. Its parts are decided under C05/C07/C08/C13/C14/C15/C20.',
 }
-for _p in ['C04', 'C06', 'C07', 'C08', 'C09', 'C10', 'C13', 'C14', 'C17', 'C18']:
+for _p in ['C04', 'C06', 'C08', 'C09', 'C10', 'C13', 'C14', 'C17', 'C18']:
     NOT_APPLICABLE.setdefault(_p, 'not reached yet: kernel designed in DESIGN.md §5 but its contracts are not built; not claimed')
